@@ -66,6 +66,43 @@ pub struct Found {
     pub describe: String,
 }
 
+/// What a worker is executing right now (read by the watchdog).
+#[derive(Default)]
+struct Slot {
+    /// milliseconds since process start at which the current execution began (0 = idle)
+    since_ms: AtomicU64,
+    seed: AtomicU64,
+    /// cancel_after_polls + 1 (0 = none)
+    cancel1: AtomicU64,
+    panic_at: AtomicU64,
+}
+
+thread_local! {
+    static MY_SLOT: std::cell::Cell<usize> = const { std::cell::Cell::new(usize::MAX) };
+}
+static SLOTS: std::sync::OnceLock<Vec<Slot>> = std::sync::OnceLock::new();
+static T0: std::sync::OnceLock<Instant> = std::sync::OnceLock::new();
+
+fn slot_begin(seed: u64, f: &FaultSpec) {
+    let i = MY_SLOT.with(|c| c.get());
+    if let (Some(slots), Some(t0)) = (SLOTS.get(), T0.get()) {
+        if let Some(sl) = slots.get(i) {
+            sl.seed.store(seed, Ordering::Relaxed);
+            sl.cancel1.store(f.cancel_after_polls.map(|k| k as u64 + 1).unwrap_or(0), Ordering::Relaxed);
+            sl.panic_at.store(f.panic_at_child_poll as u64, Ordering::Relaxed);
+            sl.since_ms.store(t0.elapsed().as_millis() as u64 + 1, Ordering::Release);
+        }
+    }
+}
+fn slot_end() {
+    let i = MY_SLOT.with(|c| c.get());
+    if let Some(slots) = SLOTS.get() {
+        if let Some(sl) = slots.get(i) {
+            sl.since_ms.store(0, Ordering::Release);
+        }
+    }
+}
+
 struct Shared {
     hashes: Mutex<HashSet<u64>>,
     nontrivial: Mutex<HashSet<u64>>,
@@ -107,6 +144,7 @@ fn main() {
         "replay" => cmd_replay(&a),
         "hashes" => cmd_hashes(&a),
         "one" => cmd_one(&a),
+        "exec" => cmd_exec(&a),
         _ => {
             eprintln!("usage: fcsim check|replay|hashes|one --prop C01 --runs N --seed S --threads T --out FILE --replay-dir DIR");
             2
@@ -120,10 +158,25 @@ fn get<T: std::str::FromStr>(a: &BTreeMap<String, String>, k: &str, d: T) -> T {
 }
 
 /// One scenario: for ordinary properties one run; for C02 the fault-free run plus every crash point.
+fn announce(seed: u64, f: &FaultSpec) {
+    if ANNOUNCE.load(Ordering::Relaxed) {
+        eprintln!(
+            "EXEC run_seed={} cancel={} panic={}",
+            seed,
+            f.cancel_after_polls.map(|k| k.to_string()).unwrap_or_else(|| "-".into()),
+            f.panic_at_child_poll
+        );
+    }
+}
+static ANNOUNCE: AtomicBool = AtomicBool::new(false);
+
 fn scenario(prop: &'static str, seed: u64, index: u64, sh: &Shared, local: &mut Local) {
     sh.scenarios.fetch_add(1, Ordering::Relaxed);
     let want_sample = local.samples_taken < 1 && index % 7 == 3;
+    announce(seed, &FaultSpec::default());
+    slot_begin(seed, &FaultSpec::default());
     let r = run(prop, Choices::from_seed(seed), FaultSpec::default(), want_sample);
+    slot_end();
     local.absorb(prop, seed, index, FaultSpec::default(), &r, sh, want_sample);
     if prop == "C02" && r.violation.is_none() && r.harness_error.is_none() {
         let trace: Vec<u32> = r.trace.iter().map(|x| x.1).collect();
@@ -131,13 +184,19 @@ fn scenario(prop: &'static str, seed: u64, index: u64, sh: &Shared, local: &mut 
         let q = r.child_polls;
         for k in 0..=p + 1 {
             let f = FaultSpec { cancel_after_polls: Some(k), ..FaultSpec::default() };
+            announce(seed, &f);
+            slot_begin(seed, &f);
             let rr = run(prop, Choices::from_trace(trace.clone()), f, false);
+            slot_end();
             local.crash_points += 1;
             local.absorb(prop, seed, index, f, &rr, sh, false);
         }
         for j in 1..=q {
             let f = FaultSpec { panic_at_child_poll: j, ..FaultSpec::default() };
+            announce(seed, &f);
+            slot_begin(seed, &f);
             let rr = run(prop, Choices::from_trace(trace.clone()), f, false);
+            slot_end();
             local.crash_points += 1;
             local.absorb(prop, seed, index, f, &rr, sh, false);
         }
@@ -222,6 +281,7 @@ fn cmd_check(a: &BTreeMap<String, String>) -> i32 {
     let out = a.get("out").cloned();
     let replay_dir = a.get("replay-dir").cloned().unwrap_or_else(|| "/verif/replays".into());
     let tier = a.get("tier").cloned().unwrap_or_else(|| "quick".into());
+    ANNOUNCE.store(a.contains_key("announce"), Ordering::Relaxed);
     let t0 = Instant::now();
     let sh = Shared {
         hashes: Mutex::new(HashSet::new()),
@@ -237,9 +297,53 @@ fn cmd_check(a: &BTreeMap<String, String>) -> i32 {
     };
     let next = AtomicU64::new(0);
     const CHUNK: u64 = 64;
+    let _ = T0.set(t0);
+    let _ = SLOTS.set((0..threads.max(1)).map(|_| Slot::default()).collect());
+    let finished = AtomicBool::new(false);
+    let hang_secs: u64 = get(a, "hang-secs", 20);
+    let slot_ids = AtomicU64::new(0);
     std::thread::scope(|s| {
-        for _ in 0..threads.max(1) {
+        // watchdog: an execution that does not finish (endless loop without child polls, a real deadlock)
+        // cannot be cut by the step counter; report it with its seed and stop the process.
+        s.spawn(|| {
+            while !finished.load(Ordering::Relaxed) {
+                std::thread::sleep(std::time::Duration::from_millis(250));
+                let now = t0.elapsed().as_millis() as u64;
+                for sl in SLOTS.get().unwrap() {
+                    let since = sl.since_ms.load(Ordering::Acquire);
+                    if since != 0 && now > since + hang_secs * 1000 {
+                        let seed = sl.seed.load(Ordering::Relaxed);
+                        let cancel = sl.cancel1.load(Ordering::Relaxed);
+                        let panic_at = sl.panic_at.load(Ordering::Relaxed);
+                        let _ = std::fs::create_dir_all(&replay_dir);
+                        let path = format!("{replay_dir}/{prop}-{}-hang-{seed:016x}.json", CONFIG);
+                        let oracle = format!("{}.hang", prop.to_ascii_lowercase());
+                        let msg = format!("one execution did not finish within {hang_secs} s of wall-clock time (endless loop or deadlock inside the code under test)");
+                        let body = format!(
+                            "{{\n\"engine\":\"hang\",\n\"property\":{},\n\"oracle\":{},\n\"config\":{},\n\"run_seed\":\"{}\",\n\"cancel\":{},\n\"panic\":\"{}\",\n\"message\":{},\n\"replay_cmd\":{}\n}}\n",
+                            json::s(prop), json::s(&oracle), json::s(CONFIG), seed,
+                            if cancel == 0 { "\"-\"".to_string() } else { format!("\"{}\"", cancel - 1) },
+                            panic_at, json::s(&msg), json::s(&format!("/verif/check replay {path}"))
+                        );
+                        let _ = std::fs::write(&path, body);
+                        println!("FOUND property={} oracle={} key=hang replay={}", prop, oracle, path);
+                        if let Some(out) = &out {
+                            let o = format!(
+                                "{{\"config\":{},\"property\":{},\"tier\":{},\"seed\":{},\"scenarios\":{},\"evaluations\":{},\"distinct_logs\":0,\"distinct_nontrivial\":0,\"wall_s\":{:.3},\"stats\":{{}},\"shapes\":{{}},\"violations\":[{{\"oracle\":{},\"key\":\"hang\",\"msg\":{},\"seed\":{},\"replay\":{}}}],\"harness_errors\":[],\"samples\":[]}}",
+                                json::s(CONFIG), json::s(prop), json::s(&tier), base,
+                                sh.scenarios.load(Ordering::Relaxed), sh.scenarios.load(Ordering::Relaxed).max(1),
+                                t0.elapsed().as_secs_f64(), json::s(&oracle), json::s(&msg), seed, json::s(&path)
+                            );
+                            let _ = std::fs::write(out, o);
+                        }
+                        std::process::exit(1);
+                    }
+                }
+            }
+        });
+        let workers: Vec<_> = (0..threads.max(1)).map(|_| {
             s.spawn(|| {
+                MY_SLOT.with(|c| c.set(slot_ids.fetch_add(1, Ordering::Relaxed) as usize));
                 let mut local = Local::default();
                 loop {
                     if sh.stop.load(Ordering::Relaxed) || t0.elapsed().as_secs_f64() > max_secs {
@@ -254,8 +358,12 @@ fn cmd_check(a: &BTreeMap<String, String>) -> i32 {
                     }
                 }
                 local.flush(&sh);
-            });
+            })
+        }).collect();
+        for h in workers {
+            let _ = h.join();
         }
+        finished.store(true, Ordering::Relaxed);
     });
     // shrink + write replay files for every distinct violation signature
     let found: Vec<Found> = sh.found.lock().unwrap().values().cloned().collect();
@@ -379,6 +487,40 @@ fn cmd_one(a: &BTreeMap<String, String>) -> i32 {
         1
     } else {
         0
+    }
+}
+
+/// One execution from a run seed plus an enumerated crash point (replay of a Miri finding).
+fn cmd_exec(a: &BTreeMap<String, String>) -> i32 {
+    let prop = prop_static(a.get("prop").map(|s| s.as_str()).unwrap_or("C02"));
+    let seed: u64 = get(a, "run-seed", 0);
+    let f = FaultSpec {
+        cancel_after_polls: a.get("cancel").and_then(|v| v.parse().ok()),
+        panic_at_child_poll: get(a, "panic", 0),
+        no_faults: false,
+    };
+    // the crash points of a scenario are re-executions of the fault-free run's choice trace
+    let r0 = run(prop, Choices::from_seed(seed), FaultSpec::default(), false);
+    let r = if f.cancel_after_polls.is_none() && f.panic_at_child_poll == 0 {
+        r0
+    } else {
+        run(prop, Choices::from_trace(r0.trace.iter().map(|x| x.1).collect()), f, a.contains_key("verbose"))
+    };
+    println!("scenario: {}", r.describe);
+    if a.contains_key("verbose") {
+        for l in r.narration.clone().unwrap_or_default() {
+            println!("{l}");
+        }
+    }
+    match &r.violation {
+        Some(v) => {
+            println!("[{}] {}", v.oracle, v.msg);
+            1
+        }
+        None => {
+            println!("no oracle violation in this execution (hash {:016x})", r.hash);
+            0
+        }
     }
 }
 
